@@ -53,7 +53,7 @@ func (s step) String() string {
 
 var stepKinds = []string{"connect", "bitfield", "have", "haveall", "havenone", "donthave", "unchoke", "choke",
 	"answer", "answer", "answer", "answer-short", "answer-empty", "answer-long", "answer-misplaced", "answer-unrequested",
-	"reject", "sleep", "sleep", "close", "want", "want", "unwant", "evict", "close+tick", "connect+close", "adv-burst", "adv-burst", "busy-burst", "metadata", "metadata"}
+	"reject", "sleep", "sleep", "close", "bad-advert", "want", "want", "unwant", "evict", "close+tick", "connect+close", "adv-burst", "adv-burst", "busy-burst", "metadata", "metadata"}
 
 type world struct {
 	x       *sim.Tor
@@ -281,6 +281,51 @@ func run(rt *rapid.T, steps []step, g sim.Geometry) (fail string, w *world) {
 			}
 			m.r.Send(ref.Msg{Kind: ref.KBitfield, Data: bf})
 			m.have, m.haveAll = nh, false
+		case "bad-advert":
+			// an advertisement storrent refuses, or one of an unusual shape: the
+			// peer's exit must retract what it had advertised before, not this
+			if !connected {
+				continue
+			}
+			switch s.A % 4 {
+			case 0, 1:
+				// over-long bitfield: in-range bits as drawn plus one beyond the last piece
+				beyond := x.N + (s.A/4)%9
+				bf := make([]byte, max((x.N+7)/8, beyond/8+1))
+				for k := 0; k < x.N; k++ {
+					if (s.A>>uint(k%16))&1 == 1 || k == i || s.A%4 == 1 {
+						bf[k/8] |= 0x80 >> (k % 8)
+					}
+				}
+				bf[beyond/8] |= 0x80 >> (beyond % 8)
+				m.r.Send(ref.Msg{Kind: ref.KBitfield, Data: bf})
+				if t.InfoComplete() {
+					w.lab("overlong-bitfield")
+					for _, o := range w.rs {
+						if o != m && o.r != nil && o.open && (o.haveAll || len(o.have) > 0) {
+							w.lab("overlong-bitfield-while-others-advertise")
+						}
+					}
+				}
+			case 2:
+				// short bitfield: the missing bytes count as zeroes
+				bf := make([]byte, (x.N+7)/8)
+				nh := map[int]bool{}
+				for k := 0; k < (len(bf)-1)*8; k++ {
+					if (s.A>>uint(k%16))&1 == 1 || k == i {
+						bf[k/8] |= 0x80 >> (k % 8)
+						nh[k] = true
+					}
+				}
+				m.r.Send(ref.Msg{Kind: ref.KBitfield, Data: bf[:len(bf)-1]})
+				m.have, m.haveAll = nh, false
+				w.lab("short-bitfield")
+			case 3:
+				m.r.Send(ref.Msg{Kind: ref.KHave, Index: uint32(x.N + (s.A/4)%3)})
+				if t.InfoComplete() {
+					w.lab("have-out-of-range")
+				}
+			}
 		case "adv-burst":
 			// a bitfield and several have / don't-have messages in one segment:
 			// the peer handles them back to back, before the torrent has looked
